@@ -260,4 +260,57 @@ mod verif_c17_state {
         assert!(c2 >= c1 && c1 >= 7, "C17.state.history.state_only_moves_forward");
         kani::cover!(e1 != e2 && c2 == 8 && c1 == 7, "C17.state.history.reach_local_then_peer_close");
     }
+
+    #[derive(Clone)]
+    struct ExpE(u32);
+    impl From<ExpE> for Error {
+        fn from(e: ExpE) -> Error {
+            app_error(e.0)
+        }
+    }
+    #[kani::proof]
+    #[kani::unwind(2)]
+    #[kani::stub(qevent::telemetry::macro_support::build_and_emit_event, noop_emit)]
+    fn exp_f_closing_term_some() {
+        let code: u8 = kani::any();
+        let t: u32 = kani::any();
+        kani::assume(inv(code, Some(t)));
+        let st = any_conn_state(code, Some(t));
+        let e: u32 = kani::any();
+        let r = st.enter_closing(&ExpE(e));
+        assert!(r.is_none(), "C17.state.exp.a");
+        assert!(terminated_code(&st) == Some(t as u64), "C17.state.exp.b");
+        core::mem::forget(st);
+    }
+    #[kani::proof]
+    #[kani::unwind(2)]
+    #[kani::stub(qevent::telemetry::macro_support::build_and_emit_event, noop_emit)]
+    fn exp_g_draining_term_none() {
+        let code: u8 = kani::any();
+        kani::assume(inv(code, None));
+        let st = any_conn_state(code, None);
+        let e: u32 = kani::any();
+        let ccf = ConnectionCloseFrame::new_app(VarInt::from_u32(e), "");
+        let r = st.enter_draining(&ccf);
+        assert!(r.is_some() == (code < 7), "C17.state.exp.a");
+        if code < 7 { assert!(terminated_code(&st) == Some(e as u64), "C17.state.exp.b"); }
+        core::mem::forget(st);
+        core::mem::forget(ccf);
+    }
+    #[kani::proof]
+    #[kani::unwind(2)]
+    #[kani::stub(qevent::telemetry::macro_support::build_and_emit_event, noop_emit)]
+    fn exp_h_draining_term_some() {
+        let code: u8 = kani::any();
+        let t: u32 = kani::any();
+        kani::assume(inv(code, Some(t)));
+        let st = any_conn_state(code, Some(t));
+        let e: u32 = kani::any();
+        let ccf = ConnectionCloseFrame::new_app(VarInt::from_u32(e), "");
+        let r = st.enter_draining(&ccf);
+        assert!(r.is_some() == (code == 7), "C17.state.exp.a");
+        assert!(terminated_code(&st) == Some(t as u64), "C17.state.exp.b");
+        core::mem::forget(st);
+        core::mem::forget(ccf);
+    }
 }
